@@ -217,7 +217,113 @@ pub fn case_strategy() -> impl Strategy<Value = Case> {
         .prop_map(|(prefill, p0, pre, index_length, ops)| Case { prefill, p0, pre, index_length, ops })
 }
 
+#[derive(Debug, Clone, PartialEq, Eq, Hash, Serialize, Deserialize)]
+pub struct DumpCase {
+    pub scenario: crate::props::c01::Case,
+    pub prefill: Vec<u8>,
+    pub p0: P0,
+    /// inject an I/O error at this destination call (None = fault free)
+    pub fail_at: Option<u8>,
+}
+
+/// Dump level: whole dumps into a pre-filled destination positioned anywhere.
+pub fn check_dump(c: &DumpCase) -> Verdict {
+    use crate::vcore::dest::Fault;
+    use crate::vcore::target::*;
+    use crate::vcore::world::*;
+    init_scratch();
+    let scratch = Target::new_scratch();
+    let bt = crate::props::c01::build(&c.scenario, &scratch);
+    let t = match Target::spawn(&bt.spec, scratch) {
+        Ok(t) => t,
+        Err(e) => return Verdict::Inconclusive(format!("target setup: {}", e.split(':').next().unwrap_or(""))),
+    };
+    if !t.wait_settled(&bt.spec) {
+        return Verdict::Inconclusive("target did not settle".into());
+    }
+    let opts = crate::props::c01::opts_of(&c.scenario, &bt, &t);
+    let p0 = match c.p0 {
+        P0::Zero => 0,
+        P0::One => 1.min(c.prefill.len() as u64),
+        P0::Mid => c.prefill.len() as u64 / 2,
+        P0::Len => c.prefill.len() as u64,
+        P0::Beyond(k) => c.prefill.len() as u64 + k as u64 + 1,
+    };
+    let orig = c.prefill.clone();
+    let mut w = make_writer(t.pid, &opts);
+    let fault = c.fail_at.map(|k| Fault::ErrAt(k as u64)).unwrap_or(Fault::None);
+    let mut dest = Dest::new(orig.clone(), p0).with_fault(fault);
+    let out = run_dump(&mut w, &mut dest);
+    let data = dest.data();
+    macro_rules! bad {
+        ($sig:expr, $($arg:tt)*) => { return Verdict::viol(format!("C09:dump:{}", $sig), format!($($arg)*)) };
+    }
+    let keep = (p0 as usize).min(orig.len());
+    if data.len() < keep || data[..keep] != orig[..keep] {
+        bad!("bytes-before-start-modified", "bytes before the starting position {p0} changed");
+    }
+    if (p0 as usize) > orig.len() && data.len() > orig.len() && data[orig.len()..(p0 as usize).min(data.len())].iter().any(|b| *b != 0) {
+        bad!("bytes-before-start-modified", "gap before the starting position is not zero");
+    }
+    let mut classes = vec![];
+    match out {
+        DumpOutcome::Panic(l, m) => return panic_verdict(&l, &m),
+        DumpOutcome::Ok(img) => {
+            let lo = p0 as usize;
+            if data.len() < lo + img.len() || data[lo..lo + img.len()] != img[..] {
+                let at = (0..img.len()).find(|i| data.get(lo + i) != Some(&img[*i])).unwrap_or(0);
+                bad!("destination-differs-from-image", "destination[p0+{at}] differs from the returned image (p0 {p0}, image {} bytes)", img.len());
+            }
+            let end = lo + img.len();
+            if data.len() > end && !(end < orig.len() && data.len() == orig.len() && data[end..] == orig[end..]) {
+                bad!("bytes-beyond-image-modified", "destination changed beyond p0 + image length");
+            }
+            if dest.pos() != (lo + img.len()) as u64 {
+                bad!("final-position", "destination position {} expected {}", dest.pos(), lo + img.len());
+            }
+            classes.push("success".to_string());
+        }
+        DumpOutcome::Err(_) => {
+            // aborted: what was written (from p0 on) must be a prefix-consistent image (C10's predicate)
+            if data.len() > p0 as usize {
+                let written = &data[p0 as usize..];
+                // only the part actually written by the writer: up to the furthest write
+                let inner = dest.0.borrow();
+                let far = inner.log.iter().filter_map(|o| if let crate::vcore::dest::DestOp::Write { at, len } = o { Some(at + len) } else { None }).max().unwrap_or(p0);
+                let written = &written[..((far - p0) as usize).min(written.len())];
+                if far > p0 {
+                    if let Some(p) = crate::props::c10::snapshot_problem(written) {
+                        bad!(format!("aborted-image:{}", p.sig), "after an aborted dump the destination from p0 on is not a consistent truncated minidump: {}", p.detail);
+                    }
+                }
+                if (far as usize) < data.len() {
+                    let end = far as usize;
+                    if !(data.len() == orig.len() && data[end..] == orig[end..]) {
+                        bad!("bytes-beyond-image-modified", "aborted dump: destination changed beyond what was written");
+                    }
+                }
+            }
+            classes.push("aborted".into());
+        }
+    }
+    let nt = p0 > 0;
+    Verdict::pass_c(if nt { Some(fp_json(c)) } else { None }, classes)
+}
+
 pub fn run(ctx: &mut LaneCtx) {
+    ctx.run_sub(
+        SubSpec {
+            name: "dump-level",
+            cases: (160, 10_000),
+            rule: "whole dumps of generated targets (C01 scenarios) into a destination pre-filled with random bytes and positioned at 0/1/mid/len/beyond, fault free or with an I/O error injected at a generated destination call; oracle = on success destination[p0..p0+len) equals the returned image, nothing before p0 or beyond the image changes, final position p0+len; on abort nothing before p0 changes and what was written is a consistent truncated image; non-trivial = p0 > 0; distinct = hash of case",
+            strategy: (crate::props::c01::case_strategy(6), proptest::collection::vec(any::<u8>(), 0..5000), prop_oneof![Just(P0::Zero), Just(P0::One), Just(P0::Mid), Just(P0::Len), (0u8..40).prop_map(P0::Beyond)], proptest::option::weighted(0.4, any::<u8>()))
+                .prop_map(|(scenario, prefill, p0, fail_at)| DumpCase { scenario, prefill, p0, fail_at })
+                .boxed(),
+            max_shrink_iters: 100,
+            log_current: true,
+        },
+        check_dump,
+    );
     ctx.assume("caller contract respected by the generator: never more directory entries than the directory was created with; image only grows by appends between flushes");
     ctx.run_sub(
         SubSpec {
@@ -235,6 +341,7 @@ pub fn run(ctx: &mut LaneCtx) {
 pub fn replay(sub: &str, case: &Value) -> Verdict {
     match sub {
         "dirsection-history" => replay_case::<Case>(case, check),
+        "dump-level" => replay_case::<DumpCase>(case, check_dump),
         _ => Verdict::Inconclusive(format!("unknown sub {sub}")),
     }
 }
